@@ -133,6 +133,8 @@ def py_ann(t: T) -> str:
         return f"Counter[{a[0]}]"
     if k == "chainmap":
         return f"ChainMap[{a[0]}, {a[1]}]"
+    if k == "defaultdict":
+        return f"DefaultDict[{a[0]}, {a[1]}]"
     if k == "opt":
         return f"Optional[{a[0]}]"
     if k == "union":
@@ -152,6 +154,7 @@ class FieldSpec:
     ty: T
     default: Any = NODEFAULT                # python value, 'factory:list' / 'factory:dict', or NODEFAULT
     default_src: str | None = None          # source text of the default expression
+    alias: str | None = None                # metadata alias
 
 
 @dataclass
@@ -163,6 +166,7 @@ class ClassSpec:
     members: list[tuple[str, Any]] = field(default_factory=list)   # enum members
     mixin: bool = False
     total: bool = True            # TypedDict
+    config: dict = field(default_factory=dict)   # Config options that do not discard information
 
     def source(self) -> str:
         if self.kind == "enum":
@@ -188,9 +192,22 @@ class ClassSpec:
         head = f"@dataclass\nclass {self.name}" + (f"({', '.join(bases)})" if bases else "") + ":"
         lines = [head]
         for f in self.fields:
-            lines.append(f"    {f.name}: {py_ann(f.ty)}" + (f" = {f.default_src}" if f.default_src else ""))
-        if not self.fields:
+            rhs = f.default_src
+            if f.alias is not None:
+                md = f"metadata={{'alias': {f.alias!r}}}"
+                if rhs is None:
+                    rhs = f"field({md})"
+                elif rhs.startswith("field("):
+                    rhs = rhs[:-1] + ", " + md + ")"
+                else:
+                    rhs = f"field(default={rhs}, {md})"
+            lines.append(f"    {f.name}: {py_ann(f.ty)}" + (f" = {rhs}" if rhs else ""))
+        if not self.fields and not self.config:
             lines.append("    pass")
+        if self.config:
+            lines.append("    class Config(BaseConfig):")
+            for k, v in self.config.items():
+                lines.append(f"        {k} = {v!r}")
         return "\n".join(lines) + "\n"
 
 
@@ -246,7 +263,7 @@ class GenOpts:
     depth: int = 3
     leaves: list[str] = field(default_factory=lambda: list(LEAVES))
     containers: list[str] = field(default_factory=lambda: ["list", "set", "frozenset", "tuplevar", "tuplefix", "dict", "opt",
-                                                            "seq", "deque", "mapping", "ordereddict"])
+                                                            "seq", "deque", "mapping", "ordereddict", "counter", "chainmap", "defaultdict"])
     classes: bool = True          # dataclasses / enums
     named: bool = True            # named tuples, typed dicts
     unions: bool = False
@@ -255,6 +272,7 @@ class GenOpts:
     max_fields: int = 5
     mixin: bool = False
     coq_only: bool = False        # stay inside TyModel.sty
+    configs: bool = False         # aliases + serialize_by_alias / allow_deserialization_not_by_alias / forbid_extra_keys
 
 
 COQ_CONTAINERS = ["list", "set", "frozenset", "tuplevar", "tuplefix", "dict", "opt"]
@@ -366,8 +384,12 @@ class SchemaGen:
             # element types kept simple and mutually distinguishable on the wire
             mk = lambda: r.choice([self.scalar(), self.leaf(), T("opt", [self.scalar()]), T("list", [self.scalar()])])
             return T("tupleu", [mk() for _ in range(np_ + nm + ns_)], extra=(np_, mode, nm))
-        if k in ("dict", "mapping", "ordereddict"):
+        if k in ("dict", "mapping", "ordereddict", "chainmap"):
             return T(k, [self.key_type(), self.gen_type(d - 1)])
+        if k == "counter":
+            return T(k, [self.key_type()])
+        if k == "defaultdict":
+            return T(k, [self.key_type(), r.choice([T("int"), T("str"), T("list", [T("int")]), T("float")])])
         if k == "opt":
             inner = self.gen_type(d - 1)
             if inner.kind in ("opt", "none", "any"):
@@ -439,6 +461,31 @@ class SchemaGen:
                     fs.ty = T("opt", [ft]) if ft.kind not in ("opt", "none", "any") else ft
                     fs.default, fs.default_src = None, "None"
             spec.fields.append(fs)
+        if self.o.configs and spec.fields and r.random() < 0.5:
+            names = [f.name for f in spec.fields]
+            wire = set()
+            for f in spec.fields:
+                c = r.random()
+                cand = None
+                if c < 0.25:
+                    cand = r.choice(names)                     # spelled like (possibly another) field's name
+                elif c < 0.5:
+                    cand = r.choice([f"a_{f.name}", "alias", "None", "with space", "ünï", "d", "value", "kwargs"])
+                if cand is not None and cand not in wire and cand != f.name:
+                    f.alias = cand
+                wire.add(f.alias or f.name)
+            # wire keys must stay pairwise distinct, otherwise the configuration itself is lossy
+            keys = [f.alias or f.name for f in spec.fields]
+            if len(set(keys)) != len(keys):
+                for f in spec.fields:
+                    f.alias = None
+            spec.config = {"serialize_by_alias": True}
+            if r.random() < 0.5:
+                spec.config["allow_deserialization_not_by_alias"] = True
+            if r.random() < 0.4:
+                spec.config["forbid_extra_keys"] = True
+            if r.random() < 0.3:
+                spec.config["sort_keys"] = True
         # the class must come after the classes it references, except itself: move to the end
         self.fam.classes.remove(spec)
         self.fam.classes.append(spec)
@@ -593,6 +640,16 @@ class ValueGen:
             return tuple([self.value(a, depth + 1) for a in pre] + mids + [self.value(a, depth + 1) for a in suf])
         if k in ("dict", "mapping"):
             return {kk: self.value(t.args[1], depth + 1) for kk in self.hvalues(t.args[0], n, depth)}
+        if k == "counter":
+            return collections.Counter({kk: r.choice([0, 1, 2, 7, -1]) for kk in self.hvalues(t.args[0], n, depth)})
+        if k == "chainmap":
+            return collections.ChainMap(*[{kk: self.value(t.args[1], depth + 1) for kk in self.hvalues(t.args[0], r.choice([0, 1, 2]), depth)}
+                                          for _ in range(r.choice([1, 2, 3]))])
+        if k == "defaultdict":
+            dd = collections.defaultdict(None)
+            for kk in self.hvalues(t.args[0], n, depth):
+                dd[kk] = self.value(t.args[1], depth + 1)
+            return dd
         if k == "ordereddict":
             return collections.OrderedDict((kk, self.value(t.args[1], depth + 1)) for kk in self.hvalues(t.args[0], n, depth))
         if k == "opt":
@@ -692,7 +749,7 @@ from harness.vlib import coq_str, coq_z  # noqa: E402
 def in_coq(t: T, fam: Family, seen=None) -> bool:
     seen = seen or set()
     for n in t.walk():
-        if n.kind in ("seq", "deque", "mapping", "ordereddict", "counter", "chainmap", "nt", "td", "union", "lit"):
+        if n.kind in ("seq", "deque", "mapping", "ordereddict", "counter", "chainmap", "defaultdict", "nt", "td", "union", "lit", "tupleu"):
             return False
         if n.kind == "leaf" and n.name == "timezone":
             pass
@@ -870,6 +927,8 @@ def py_src(v) -> str:
         return "deque([" + ", ".join(py_src(x) for x in v) + "])"
     if type(v) is collections.OrderedDict:
         return "OrderedDict([" + ", ".join(f"({py_src(k)}, {py_src(x)})" for k, x in v.items()) + "])"
+    if type(v) is collections.defaultdict:
+        return "defaultdict(None, {" + ", ".join(f"{py_src(k)}: {py_src(x)}" for k, x in v.items()) + "})"
     if type(v) is collections.ChainMap:
         return "ChainMap(" + ", ".join(py_src(m) for m in v.maps) + ")"
     if type(v) is collections.Counter:
